@@ -239,7 +239,7 @@ PARTS = [
     Part("reply-segmentations", "enum", check, cases=segmentation_cases, exhaustive=True),
     Part("fixed-histories", "enum", check, cases=fixed_history_cases, shards={"quick": 4, "thorough": 8}),
     Part("random-histories", "hyp", check, strategy=history_strategy,
-         examples={"quick": 60, "thorough": 1000}, shards={"quick": 4, "thorough": 16}),
+         examples={"quick": 60, "thorough": 4000}, shards={"quick": 4, "thorough": 16}),
 ]
 
 
